@@ -1,7 +1,8 @@
 (* C02 - soundness of callVariant.  Level S: theorems about the specification Model/Spec.v; the engine
    is tied to `realizable` by the correspondence harness/props/c02.py only. *)
 From MoPep Require Import Model.Base Model.Rule Model.Digest Model.Spec Model.SpecStmt Gen.Bio
-                          Proofs.SpecProofs Model.Retry Proofs.RetryProofs Model.W2F Model.SpecAlt Model.SpecAltStmt Proofs.SpecAltProofs.
+                          Proofs.SpecProofs Model.Retry Proofs.RetryProofs Model.W2F Model.SpecAlt Model.SpecAltStmt Proofs.SpecAltProofs
+                          Model.SpecFusion Proofs.SpecFusionProofs.
 Open Scope Z_scope.
 
 (* The C02 decider is the property's statement (Realizable, Model/SpecStmt.v): some non-empty, pairwise
@@ -37,6 +38,25 @@ Print Assumptions must_fl_sub_may.
 Theorem flags_off_realizable : forall x p, realizable_fl (mkFlags false false) x p = realizable x p.
 Proof. exact flags_off_realizable_lemma. Qed.
 Print Assumptions flags_off_realizable.
+
+(* ---- fusion transcripts (exonic breakpoints; Model/SpecFusion.v) ---- *)
+Theorem fuse_backbone : forall xd bp xa bp',
+  in_tx (fuse xd bp xa bp') = firstn (Z.to_nat bp) (in_tx xd) ++ skipn (Z.to_nat bp') (in_tx xa).
+Proof. exact fuse_backbone_lemma. Qed.
+Print Assumptions fuse_backbone.
+
+Theorem fuse_records : forall xd bp xa bp' v,
+  In v (in_vars (fuse xd bp xa bp')) <->
+  (In v (in_vars xd) /\ v_e v <= bp) \/
+  (exists w, In w (in_vars xa) /\ bp' <= v_s w /\ v = move (bp - bp') w).
+Proof. exact fuse_records_lemma. Qed.
+Print Assumptions fuse_records.
+
+Theorem realizable_fusion_iff : forall xd bp xa bp' p,
+  realizable_fusion xd bp xa bp' p = true <->
+  (MayProduct (fuse xd bp xa bp') [] p \/ Realizable (fuse xd bp xa bp') p).
+Proof. exact realizable_fusion_iff_lemma. Qed.
+Print Assumptions realizable_fusion_iff.
 
 (* ---- the retry clause: faithful model (Level F) of call_variant_peptide.caller_reducer, Model/Retry.v ---- *)
 
